@@ -129,8 +129,23 @@ def gen_submit(t):
     for n in ast.walk(f):
         if isinstance(n, ast.Call) and ast.unparse(n.func) == 'task':
             raise Untranslatable('submit_task calls the task inline')
-    out = ('/-- `submit_task` (the future is identified with the job id it is stored under) -/\n'
-           'def submitTask (st : TH) : Except Py.Exn (TH × Int) :=\n  ' + '\n  '.join(lines) + '\n')
+    marks = [i for i, l in enumerate(lines) if 'accepted := st.accepted ++' in l]
+    if len(marks) != 1:
+        raise Untranslatable('submit_task does not hand the task to the pool exactly once')
+    cut = marks[0] + 1
+    before, after = lines[:cut], [l for l in lines[cut:] if not l.startswith('.ok')]
+    if any(not l.startswith('let st :=') for l in after):
+        raise Untranslatable('submit_task: unexpected statement after pool.submit')
+    out = ('/-- `submit_task`, the statements up to and including `self._pool.submit(task, *args)`: from here on the\n'
+           '    task can run (the future is identified with the job id) -/\n'
+           'def submitAccept (st : TH) : Except Py.Exn (TH × Int) :=\n  ' + '\n  '.join(before)
+           + '\n  .ok (st, future)\n\n'
+           '/-- `submit_task`, the statements after `pool.submit` (the done-callback is attached after them) -/\n'
+           'def submitStore (st : TH) (next_id : Int) : TH :=\n  let future := next_id\n  '
+           + '\n  '.join(after + ['st']) + '\n\n'
+           '/-- `submit_task` as a whole -/\n'
+           'def submitTask (st : TH) : Except Py.Exn (TH × Int) :=\n'
+           '  match submitAccept st with\n  | .error e => .error e\n  | .ok (st, id) => .ok (submitStore st id, id)\n')
     # callback
     removes = False
     if cb is not None and attached:
